@@ -729,7 +729,8 @@ def int_idioms(tree):
             self.generic_visit(n)
             if len(n.ops) == 1 and isinstance(n.ops[0], ast.GtE) and is_len(n.left):
                 r = n.comparators[0]
-                if isinstance(r, ast.BinOp) and isinstance(r.op, ast.LShift) and isinstance(r.left, ast.Constant) and r.left.value == 1 and shift_ok(r.right):
+                if isinstance(r, ast.BinOp) and isinstance(r.left, ast.Constant) and shift_ok(r.right) \
+                        and ((isinstance(r.op, ast.LShift) and r.left.value == 1) or (isinstance(r.op, ast.Pow) and r.left.value == 2)):
                     return ast.copy_location(ast.Compare(left=n.left, ops=[ast.Gt()], comparators=[pow2_minus_1(r.right)]), n)
             return n
 
